@@ -96,7 +96,7 @@ func (r *Registry) RunC03Case(c C03Case) *stat.Failure {
 			return stat.Failf("position", "%s: after ReadBlock the reader is not positioned behind the block (sentinel %d, err %v)", c.Struct, s8, err)
 		}
 		// (4) reverse differential: reference encodings read by the implementation
-		for name, enc := range map[string]rc.Enc{"canonical": {}, "keep-defaults": {KeepDefaults: true}, "list-for-bytes": {ListForBytes: true}, "widened": {Widen: true, KeepDefaults: true}} {
+		for name, enc := range map[string]rc.Enc{"canonical": {}, "keep-defaults": {KeepDefaults: true}, "list-for-bytes": {ListForBytes: true}, "simple-list-for-unsigned-bytes": {SimpleForU8: true}, "widened": {Widen: true, KeepDefaults: true}} {
 			enc.StructBody(sv)
 			got, err := r.decodeImpl(c.Struct, enc.Buf)
 			if err != nil {
